@@ -813,13 +813,32 @@ class SymBytes:
         suffix = bytes(suffix)
         return len(suffix) <= len(self.items) and (len(suffix) == 0 or bool(SymBytes.make(self.items[-len(suffix):]) == suffix))
 
+    def translate(self, table, delete=b''):
+        if table is not None:
+            raise Unsupported('bytes.translate with a table on symbolic bytes')
+        vals = tuple(bytes(delete))
+        return SymBytes.make([it for it in self.items if not self._in(it, vals)]) if vals else self
+
+    def split(self, sep=None, maxsplit=-1):
+        if sep is None or maxsplit != -1 or len(bytes(sep)) != 1:
+            raise Unsupported('bytes.split other than by one separator byte')
+        s = bytes(sep)[0]
+        out, cur = [], []
+        for it in self.items:
+            if self._in(it, (s,)):
+                out.append(SymBytes.make(cur)); cur = []
+            else:
+                cur.append(it)
+        out.append(SymBytes.make(cur))
+        return out
+
     def count(self, sub):
         raise Unsupported('bytes.count on symbolic bytes')
 
     def _nosup(self, *a, **k):
         raise Unsupported('bytes operation on symbolic bytes')
 
-    split = rsplit = rfind = rindex = _nosup
+    rsplit = rfind = rindex = _nosup
     partition = rpartition = hex = _nosup
 
 
